@@ -19,7 +19,7 @@ KANI_BACKEND = "kani-0.68/cbmc-6.11/cadical"
 
 class Harness:
     def __init__(self, name, props, owner, text, kind="proof", bound=None, tiers=("quick", "thorough"),
-                 timeout=900, mem_gb=20, covers=0, extra_args=(), functions=(), mod="", must_panic_in=None):
+                 timeout=900, mem_gb=24, covers=0, extra_args=(), functions=(), mod="", must_panic_in=None):
         self.name = name
         self.props = props
         self.owner = owner
@@ -139,7 +139,7 @@ def parse_kani_output(out):
         res["covers"] = (int(m.group(1)), int(m.group(2)))
     # a description may span several lines (contract closures); it ends at the " File:" line
     for blk in re.split(r"(?m)^Failed Checks: ", out)[1:]:
-        m = re.match(r"(.*?)\n\s*File: \"([^\"]*)\", line (\d+), in (\S+)", blk, re.S)
+        m = re.match(r"(.*?)\n\s*File: \"([^\"]*)\", line (\d+), in ([^\n]+)", blk, re.S)
         if m and "Failed Checks:" not in m.group(1) and "VERIFICATION" not in m.group(1):
             res["failed"].append({"desc": " ".join(m.group(1).split()), "file": m.group(2),
                                   "line": int(m.group(3)), "fn": m.group(4)})
@@ -165,6 +165,8 @@ def classify(parsed, out, rc, harness):
     """-> (status, detail).  Only semantic check failures are violations."""
     if rc == -9:
         return UNDECIDED, "timeout after %ds" % harness.timeout
+    if rc == -8:
+        return UNDECIDED, "resident memory above %d GB" % harness.mem_gb
     if parsed["status"] is None:
         tail = out[-1500:]
         return UNDECIDED, "no verification verdict (rc=%s): %s" % (rc, tail)
